@@ -436,6 +436,14 @@ def main(tier, seed):
     items.append(("shape", two))
     items.append(("shape", two + (("el", "D", "entity", x), ("el", "B1", "agent", y))))
     items.append(("shape", two + (("bun", "B3", ("A", "b3", ("s", "ex"))), ("el", "B3", "activity", x, (None, None)))))
+    # records of one kind and identifier that differ only in values whose hash values collide (document level and
+    # in a bundle, with a third record in between)
+    k = ("A", "k", ("s", "ex"))
+    for a, b in (("i_neg", "i_m2"), ("i_0", "i_2_61m1")):
+        for scope_ops, scope in (((), "D"), ((("bun", "B1", ("A", "b1", ("s", "ex"))),), "B1")):
+            base = prelude + scope_ops + (("el", scope, "entity", x), ("at", k, a), ("el", scope, "entity", x), ("at", k, b))
+            items.append(("shape", base))
+            items.append(("shape", base + (("el", scope, "entity", y), ("at", k, a))))
     out2 = explore.pmap(__name__, tier, {}, "family_case", items, chunk=8)
     out.merge(out2)
     nscript = {"quick": 12, "thorough": 40}[tier]
